@@ -1202,6 +1202,36 @@ FAMILY_WEIGHTS = {
 }
 
 
+_IDX = ["getitem", "getitem", "getitem_list", "take", "rechunk"]
+FOLLOWUPS = {
+    "transpose": _IDX,
+    "moveaxis": _IDX,
+    "swapaxes": _IDX,
+    "T": _IDX,
+    "expand_dims": ["rechunk", "rechunk_auto", "getitem", "take"],
+    "expand_dims_multi": ["rechunk", "rechunk", "rechunk_auto", "getitem", "take"],
+    "sliding_window_view": ["sum", "min", "max", "mean", "getitem", "prod", "any"],
+    "take": ["getitem", "rechunk", "sliding_window_view", "repeat"],
+    "getitem_list": ["getitem", "rechunk", "sliding_window_view"],
+    "shuffle": ["getitem", "rechunk"],
+    "concatenate": _IDX,
+    "stack": _IDX,
+    "wsum": ["getitem"],
+    "sum": ["getitem", "broadcast_to"],
+    "mean": ["getitem"],
+    "max": ["getitem"],
+    "broadcast_to": ["take", "getitem", "shuffle"],
+    "reshape": ["getitem", "rechunk"],
+    "rechunk": ["rechunk", "getitem", "sliding_window_view", "concatenate"],
+    "rechunk_auto": ["rechunk", "getitem", "sliding_window_view"],
+    "repeat": ["getitem"],
+    "pad": ["getitem"],
+    "map_blocks": ["getitem", "rechunk"],
+    "add": ["getitem", "rechunk", "take"],
+    "where": ["getitem", "rechunk", "take"],
+}
+
+
 def ops_by_family():
     out = {}
     for o in OPS.values():
@@ -1333,6 +1363,10 @@ def program_strategy(min_stmts=1, max_stmts=6, max_leaves=2, family_weights=None
                 name = D_.choice(first_ops)
             elif forced_at is not None and len(stmts) == forced_at and not any(t["op"] in ensure_ops for t in stmts):
                 name = D_.choice(list(ensure_ops))
+            elif stmts and stmts[-1]["op"] in FOLLOWUPS and D_.chance(2, 5):
+                # producer/consumer pairs whose rewrites interact (pushdowns through the producer)
+                cands = [n for n in FOLLOWUPS[stmts[-1]["op"]] if any(n in v for v in fams.values())]
+                name = D_.choice(cands) if cands else D_.choice(fams[D_.weighted([(f, fw[f]) for f in sorted(fams)])])
             else:
                 fam = D_.weighted([(f, fw[f]) for f in sorted(fams)])
                 name = D_.choice(fams[fam])
